@@ -446,6 +446,28 @@ func libPackage(q refpkg.Pkg) (pkg tds.Package, prev tds.Package, err error) {
 				}
 			}
 		}
+		if (len(req)+len(res))%2 == 1 {
+			// every other package is built by a call sequence instead of the
+			// constructor: each bit is first disabled (it is not set), then
+			// all are enabled; the bit set, and so the encoding, is the same
+			p, err := tds.NewCapabilityPackage(nil, nil, nil)
+			if err != nil {
+				return p, nil, err
+			}
+			for _, on := range []bool{false, true} {
+				for _, b := range req {
+					if err := p.SetRequestCapability(b, on); err != nil {
+						return p, nil, err
+					}
+				}
+				for _, b := range res {
+					if err := p.SetResponseCapability(b, on); err != nil {
+						return p, nil, err
+					}
+				}
+			}
+			return p, nil, nil
+		}
 		p, err := tds.NewCapabilityPackage(req, res, nil)
 		return p, nil, err
 	case refpkg.Format:
